@@ -315,3 +315,114 @@ class RefSymClone(Contract):
   def small_models(self):
     from pyvc.contracts import Model
     yield Model({}, {})
+
+
+# ---------------------------------------------------------------------------
+# Functor._sym_clone: on top of what Object._sym_clone copies, the call
+# behaviour of the functor (which arguments are bound / default / specified,
+# whether bound arguments may be overridden and extra arguments ignored at call
+# time) is carried over, each piece from its own source, as fresh sets.
+
+import importlib as _il
+_functor = _il.import_module("pyglove.core.symbolic.functor")
+
+SF = 'pyglove.core.symbolic.functor'
+SET_COPY = z3.Function('fresh_set_copy_of', z3.IntSort(), z3.IntSort())
+_FUNCTOR_SETS = ('_non_default_args', '_default_args', '_specified_args')
+_FUNCTOR_FLAGS = ('_override_args', '_ignore_extra_args')
+
+
+@register
+class FunctorSymClone(Contract):
+  prop = 'C07'
+  target = f'{SF}:Functor._sym_clone'
+
+  def inputs(self, b):
+    fields = {n: absobj.ref(object, b.int('set' + n).z) for n in _FUNCTOR_SETS}
+    fields.update({n: b.bool(n.strip('_')) for n in _FUNCTOR_FLAGS})
+    s = SObj(_functor.Functor, fields, name='self')
+    # the five ids are pairwise distinct objects
+    ids = [absobj.ref_id(fields[n]) for n in _FUNCTOR_SETS]
+    b.path.assume(z3.Distinct(*ids), check=False)
+    return dict(self=s, deep=b.bool('deep'), memo=b.choice('memo_kind', [None, SAny('memo')])), {}
+
+  def setup_policy(self, policy):
+    me = self
+
+    def super_clone(interp, frame, args, kwargs):
+      # what Object._sym_clone returns: a new functor of the same class whose
+      # call-behaviour state is that of a fresh construction (arbitrary here)
+      me._copy = SObj(_functor.Functor, {n: SAny('fresh' + n) for n in _FUNCTOR_SETS + _FUNCTOR_FLAGS},
+                      name='copy')
+      interp.path.event('super-clone', 'Object._sym_clone', [interp.resolve(a) for a in args])
+      return me._copy
+    policy.contracts[f'{SO}:Object._sym_clone'] = super_clone
+
+    def new_set(interp, args, kwargs, frame):
+      src = absobj.ref_id(interp.resolve(args[0])) if args else None
+      if src is None:
+        raise I.Unsupported('set(...) of something that is not one of the functor\'s argument sets')
+      return absobj.ref(object, SET_COPY(src))
+    policy.handlers[('new', set)] = new_set
+    policy.handlers[('identical',)] = absobj.identical_handler
+
+  @direct
+  def ensures_returns_the_copy_made_by_the_base_class(self, interp, env):
+    return z3.BoolVal(interp.resolve(env['result']) is self._copy)
+
+  @direct
+  def ensures_argument_sets_copied_each_from_its_own_source(self, interp, env):
+    s, c = interp.resolve(env['self_']), self._copy
+    zs = []
+    for n in _FUNCTOR_SETS:
+      got = absobj.ref_id(interp.resolve(c.fields[n]))
+      if got is None:
+        return z3.BoolVal(False)
+      zs.append(got == SET_COPY(absobj.ref_id(s.fields[n])))
+    return z3.And(*zs)
+
+  @direct
+  def ensures_call_time_flags_copied_each_from_its_own_source(self, interp, env):
+    s, c = interp.resolve(env['self_']), self._copy
+    zs = []
+    for n in _FUNCTOR_FLAGS:
+      z = interp.to_z3(interp.resolve(c.fields[n]))
+      if z is None or z.sort() != z3.BoolSort():
+        return z3.BoolVal(False)
+      zs.append(z == interp.to_z3(s.fields[n]))
+    return z3.And(*zs)
+
+  def trace_delegates_to_the_base_class_with_the_same_arguments(self, events, outcome, interp, env):
+    calls = [e for e in events if e.kind == 'super-clone']
+    if len(calls) != 1:
+      return False
+    a = calls[0].data
+    # bound super(): (self, deep, memo) or (deep, memo)
+    a = a[-2:]
+    return z3.And(interp.truth_z(interp.identical(a[0], env['deep'])) if not isinstance(interp.identical(a[0], env['deep']), bool)
+                  else z3.BoolVal(interp.identical(a[0], env['deep'])),
+                  z3.BoolVal(interp.resolve(a[1]) is interp.resolve(env['memo'])))
+
+  def trace_original_untouched(self, events, outcome, interp, env):
+    s = interp.resolve(env['self'])
+    return not [e for e in events if e.kind in ('write', 'payload-write') and e.data and e.data[0] is s]
+
+  # native search for a concrete failing input: all flag combinations
+  def small_models(self):
+    import itertools
+    from pyvc.contracts import Model
+    for oa, ie, deep in itertools.product((False, True), repeat=3):
+      yield Model(dict(override_args=oa, ignore_extra_args=ie, deep=deep), {})
+
+  def replay(self, obligation, m):
+    @pg.functor()
+    def _f(a, b=1):
+      return (a, b)
+    f = _f(1, override_args=bool(m.get('override_args')), ignore_extra_args=bool(m.get('ignore_extra_args')))
+    c = f.clone(deep=bool(m.get('deep')))
+    bad = [f'{n}: copy {getattr(c, n)!r}, original {getattr(f, n)!r}'
+           for n in _FUNCTOR_SETS + _FUNCTOR_FLAGS if getattr(c, n) != getattr(f, n)]
+    bad += [f'{n} is shared with the original' for n in _FUNCTOR_SETS if getattr(c, n) is getattr(f, n)]
+    return dict(outcome='reproduced' if bad else 'not-reproduced',
+                detail=f'_f(1, override_args={f._override_args}, ignore_extra_args={f._ignore_extra_args})'
+                       f'.clone(deep={bool(m.get("deep"))}): ' + ('; '.join(bad) or 'state carried over'))
